@@ -31,7 +31,14 @@ BLOCKS = {
     'div-persistent-expansive': ("x = 1/Y\ny = 2*y + 1 + 0*x", ['x', 'y'], ['Y']),
     'div-persistent-oscillating': ("x = 1/Y + 0*y\ny = -1*y + G + 0*x", ['x', 'y'], ['Y', 'G']),
     'div-persistent-decorative': ("x = 1/Y\ny = 2*y + 1", ['x', 'y'], ['Y']),
+    'div-persistent-first-of-two': ("x = 1/Y\ny = 0.5*y + 1 + 0*x", ['x', 'y'], ['Y']),
+    'div-persistent-middle': ("a = 0.5*a + 1 + 0*x\nx = 1/Y + 0*y\ny = 0.25*y + 2 + 0*a", ['a', 'x', 'y'], ['Y']),
 }
+
+
+# blocks whose equations divide by an exogenous input: a period in which it is zero cannot be solved
+DIVISORS = {'div-persistent': ['Y'], 'div-persistent-expansive': ['Y'], 'div-persistent-oscillating': ['Y'], 'div-persistent-decorative': ['Y'],
+            'div-persistent-first-of-two': ['Y'], 'div-persistent-middle': ['Y']}
 
 
 def nc_case(case):
@@ -106,6 +113,12 @@ def nc_case(case):
             lens = {v: len(ts[v]) for v in ts}
             if set(lens.values()) != {3}:
                 problem = 'after success the series lengths are %r' % (lens,)
+            for dn in DIVISORS.get(name, []):
+                for kk_ in (1, 2):
+                    r, m = D.holds(syms['%s@%d' % (dn, kk_)] != 0)
+                    if r == 'sat' and out['viol'] is None:
+                        out['viol'] = {'why': 'both periods reported as solved although the divisor %s is zero in period %d (the arithmetic error persists)' % (dn, kk_),
+                                       'vals': {kk: str(m.eval(v, model_completion=True)) for kk, v in syms.items()}}
         if problem and out['viol'] is None:
             r, m = D.holds(z3.BoolVal(False))
             out['viol'] = {'why': problem, 'vals': {kk: str(m.eval(v, model_completion=True)) for kk, v in syms.items()} if m is not None else None}
@@ -301,6 +314,11 @@ if failing:
     if set(lens.values()) != {failing}: bad = True
     elif any(ts[v][:failing] != snap[v][:failing] for v in lens): bad = True
 elif set(len(ts[v]) for v in ts) != {3}: bad = True
+else:
+    from vf.props.c11 import DIVISORS
+    for dn in DIVISORS.get(name, []):
+        if 0.0 in ts[dn][1:]:
+            print('reported as solved although the divisor', dn, '=', ts[dn], 'is zero in a solved period:', {v: ts[v] for v in ts}); bad = True
 sys.exit(1 if bad else 0)
 '''
 
